@@ -118,6 +118,10 @@ func (x Expr) set(data, value any, fun string, one bool) error {
 			case map[string]any:
 				if int(fi) == len(x)-1 { // last one
 					if value == delFlag {
+						if _, has = tv[string(tf)]; !has {
+							// Nothing to delete here, DelOne goes on.
+							continue
+						}
 						delete(tv, string(tf))
 					} else {
 						tv[string(tf)] = value
@@ -210,6 +214,9 @@ func (x Expr) set(data, value any, fun string, one bool) error {
 			case gen.Object:
 				if int(fi) == len(x)-1 { // last one
 					if value == delFlag {
+						if _, has = tv[string(tf)]; !has {
+							continue
+						}
 						delete(tv, string(tf))
 					} else {
 						tv[string(tf)] = nodeValue
@@ -760,6 +767,9 @@ func (x Expr) set(data, value any, fun string, one bool) error {
 					case map[string]any:
 						if int(fi) == len(x)-1 { // last one
 							if value == delFlag {
+								if _, has = tv[tu]; !has {
+									continue
+								}
 								delete(tv, tu)
 							} else {
 								tv[tu] = value
@@ -814,6 +824,9 @@ func (x Expr) set(data, value any, fun string, one bool) error {
 					case gen.Object:
 						if int(fi) == len(x)-1 { // last one
 							if value == delFlag {
+								if _, has = tv[tu]; !has {
+									continue
+								}
 								delete(tv, tu)
 							} else {
 								tv[tu] = nodeValue
